@@ -73,6 +73,7 @@ P = {
     "C05.e": "by evaluation: a class passed as type argument (whose qualified name differs from its simple name) selects the same objects as its simple name, in get_parent_of_type and in the selector get_children_of_type builds",
     "C05.f": "by evaluation: get_model returns the root of the sample chain for every object of it and never consults equality (==, in) of model objects, which user classes may define by value",
     "C05.g": 'by evaluation of parse_tree_to_objgraph.process_node / process_match on a sample parse tree (12 objects and values, sample meta-classes, recording meta-model stand-ins): every created object has the object whose attribute contains it as parent, the root object has none; reference attributes stay None / [] until resolution',
+    "C05.h": 'by evaluation of get_children / get_children_of_type on a sample object tree (11 searches): containment order with attributes in declaration order, parents or children first, every contained object once (also elements a user class keeps in a tuple), references and base-type values not followed, should_follow prunes a subtree, the selector only filters',
   },
   declined="exactly-once and ordering guarantees over arbitrary object graphs",
   technique="control-dependence (CFG post-dominators) on descent sites + sibling cross-check of the three walkers"),
@@ -116,6 +117,7 @@ P = {
     "C09.c": "the unresolved error is raised iff the counter is positive after the loop; by evaluation of that branch: references left over end in a TextXSemanticError",
     "C09.d": "by evaluation of the failure branch over three sample models (two with unresolved references of their own, one without): each unresolved reference of each model is named once, with the line/column its own model's parser gives",
     "C09.e": "by evaluation over the same schedules: in every round each reference taken from the work list is either re-queued and reported as delayed (exactly the postponed ones) or counted and stored; references of other models stay queued untouched; a Postponed answer is never stored",
+    "C09.f": 'by evaluation of resolve_model_path, get_list_of_concatenated_objects and ExtRelativeName (constructor interpreted) on a sample model with an extension chain (30 cases): a reference that is not resolved yet gives Postponed at any step of a path, inside parent(T) navigation and along the extension chain; a Postponed link stays in the chain; the provider answers the most derived match, None when no class of the complete chain has the name, and Postponed (counted) whenever any link is unresolved - never a definite answer from a partial chain',
     "C07.b": "(shared with C07) a Postponed result is never replaced by a builtin nor stored",
   },
   declined="'succeeds exactly when some order resolves everything' and order independence (depend on provider semantics)",
@@ -183,6 +185,7 @@ P = {
     "C14.j": "by evaluation: instrumentation nests - a class stays instrumented until the restore of the outermost replacing parser; a repeated restore of one parser, and the restore of a parser that never replaced, change nothing",
     "C14.m": "by evaluation of parse_tree_to_objgraph.process_node / process_match on a sample parse tree: an object of a user class is allocated from the user's class without running __init__, its attribute store is reserved, it is queued once for initialisation after the model is built, and it gets its parent like any other object",
     "C14.n": 'by evaluation of the driver parse_tree_to_objgraph (recording stand-ins for the tree walkers, resolver class, loaders and cleanup functions; _start/_end_model_construction interpreted) on 9 load scenarios: a model of an immutable type (a match-rule result) restores the user-class instrumentation and releases the collected attributes at once, gets no resolver and is returned',
+    "C14.p": 'by evaluation of the attribute methods the loader installs on user classes: for an object under construction reads and __dict__ answer from the collected attributes (scope providers enumerate obj.__dict__), writes and deletes go there; other objects of the class behave normally; a missing attribute is an AttributeError',
     "C14.d": "__init__ called once per created instance with kwargs filtered to grammar attributes, after restore and before processors",
     "C14.e": "on every normal path through parse_tree_to_objgraph the parser is handed over to the model or the user classes are restored at once (immutable models)",
     "C14.f": "cleanup-and-reraise handlers that restore the user classes are catch-all (KeyboardInterrupt/SystemExit abort a load too)",
